@@ -124,6 +124,10 @@ def emit_op(op):
         return '(LstShift %s %s %s)' % (bb(op[1]), nlist(op[2]), olist(op[3]))
     if k == 'LstSetParent':
         return '(LstSetParent %s %s)' % (nlist(op[1]), no(op[2]))
+    if k == 'LstSetChildren':
+        return '(LstSetChildren %s %s)' % (nlist(op[1]), olist(op[2]))
+    if k == 'LstSetLinks':
+        return '(LstSetLinks %s %s %s)' % (bb(op[1]), nlist(op[2]), olist(op[3]))
     if k == 'WbsRemove':
         return '(WbsRemove %d %s)' % (op[1], no(op[2]))
     if k == 'WbsRemoveAll':
@@ -256,6 +260,34 @@ CORPUS = [
                                             [['LstSetParent', [1, 2], 3], {'src': ['children', 0]}]]),
     ('list shift, last element rejected', [T(0), T(1), T(2), T(3), ['SetChildren', 0, [1, 2]], ['SetParent', 3, 2],
                                            [['LstShift', PR, [1, 2], [3]], {'src': ['children', 0]}]]),
+    # bulk assignment of children / predecessors / successors to a task list: one setter call per element with the
+    # SAME value, undone as a whole when a later element rejects it (the first element's relations, the position of
+    # a moved task in its old parent's list, the owner of an adopted free task, the order of the mirror lists)
+    ('bulk children and links, accepted', [
+        W, T(1), T(2), T(3), T(4), T(5), ['SetChildren', 0, [1, 2]],
+        [['LstSetChildren', [1, 2], [3]], {'src': ['tasks', 0]}],                     # 3 ends below the LAST element
+        [['LstSetLinks', PR, [1, 2], [4, None, 4]], {'src': ['roots', 0], 'form': 'tuple'}],
+        [['LstSetLinks', SU, [1, 2], [5]], {'src': ['filter', ['tasks', 0], [1, 2]], 'form': 'single'}],
+        [['LstSetLinks', PR, [1, 2], [5]], {'src': ['roots', 0], 'form': 'iter'}],     # a cycle: rejected by the first element
+        [['LstSetChildren', [1, 2, 3], [4, 5]], {'src': ['tasks', 0], 'form': 'iter'}],  # one-shot iterator: read once
+        [['LstSetLinks', PR, [1, 2], []], {'src': ['roots', 0], 'form': 'none'}],
+        [['LstSetChildren', [1, 2], []], {'src': ['roots', 0], 'form': 'none'}]]),
+    ('bulk children, second element rejected', [
+        T(0), T(1), T(2), T(3), ['SetChildren', 0, [1, 2]],
+        [['LstSetChildren', [1, 2], [3, 2]], {'src': ['children', 0]}],               # 2 moved below 1, then rejects itself
+        [['LstSetChildren', [1, 2], [1]], {'src': ['children', 0], 'form': 'single'}],  # rejected by the first element
+        [['LstSetChildren', [1, 2], [3]], {'src': ['children', 0], 'form': 'single'}]]),
+    ('bulk children inside a WBS, second element rejected after a free task was adopted', [
+        W, T(1), T(2), T(3), T(4), ['SetChildren', 0, [1, 2]], ['SetParent', 4, 3],
+        [['LstSetChildren', [1, 2], [3, 2]], {'src': ['tasks', 0]}],                  # 3 (with its child 4) got the owner, then undone
+        [['LstSetChildren', [1, 2], [3, 2]], {'src': ['filter', ['roots', 0], [1, 2]], 'form': 'tuple'}],
+        [['LstSetChildren', [2, 1], [3]], {'src': ['filter', ['roots', 0], [1, 2]]}]]),
+    ('bulk links, second element rejected', [
+        T(0), T(1), T(2), T(3), T(4), ['SetChildren', 0, [1, 2]], ['SetLinks', PR, 1, [3, 4]], ['SetLinks', SU, 3, [2, 1]],
+        [['LstSetLinks', PR, [1, 2], [4, 2]], {'src': ['children', 0]}],              # 1 lost predecessor 3, then 2 rejects itself
+        [['LstSetLinks', SU, [1, 2], [1]], {'src': ['filter', ['children', 0], [1, 2]], 'form': 'single'}],
+        [['LstSetLinks', PR, [1, 2], [4]], {'src': ['succs', 3]}],
+        [['LstSetLinks', SU, [1, 2], [3]], {'src': ['succs', 3]}]]),                   # a cycle through the list's own owner
     # a link between a DEEP descendant (two levels below the moved task) and the future parent chain
     ('re-parenting below a task that a grandchild is linked with', [
         T(1), T(2), T(3), T(4), T(5), ['SetParent', 1, 0], ['SetParent', 2, 1], ['SetLinks', PR, 2, [3]], ['SetParent', 0, 3],
@@ -532,7 +564,7 @@ def run_property(ctx, spec):
         evaluations=checked,
         distinct_nontrivial=len(distinct),
         rule='hand-written corpus (%d histories: witnesses of F1-F10, F25, the seeded changes C01-A and C15-B, boundary cases) + %d generated histories of 10-40 public '
-             'calls over 4-8 task objects sharing 3-5 ids and 2-3 WBSs, 24 operation kinds in every syntactic variant, illegal '
+             'calls over 4-8 task objects sharing 3-5 ids and 2-3 WBSs, 26 operation kinds in every syntactic variant, illegal '
              'arguments aimed at by a legality predicate evaluated on the current snapshot, ~15%% of the list calls through a '
              'facade obtained earlier; every call is judged from the implementation\'s actual pre-state (evaluations = calls judged); '
              'distinct non-trivial = distinct (pre-state snapshot, normalised call) pairs whose call raised or changed the state' % (len(corpus), len(gen)),
